@@ -1147,7 +1147,7 @@ def random_phase(chk, applied, layout, seeds, nsteps, conc):
         traces = pool_map(random_history, [(sd, layout, nsteps, conc, rep) for sd in todo])
         # the last trace of the batch is a copy of the first one with one observed value changed: TLC must reject it
         bad = json.loads(json.dumps(traces[0]))
-        spot = [e for e in bad if e.get('cache')]
+        spot = [e for e in bad if e.get('cache') and not e.get('restarts') and not e.get('excs')]
         if spot:
             en = spot[-1]['cache'][0]['en']
             en['v'] = (en['v'] + 1) % 6 if en['k'] == 'v' else 0
